@@ -442,6 +442,8 @@ def gen_faults(rng, programs, n):
     if not targets:
         return faults
     per_op = {}
+    all_kinds = ["open-fail", "read-fail", "cancel", "alloc-fail", "write-torn"]
+    enabled = rng.sample(all_kinds, rng.randint(1, len(all_kinds)))      # swarm: each session enables its own subset of fault kinds
     for _ in range(n):
         biased = [t for t in targets if t[2]["op"] in ("calc.new", "calc.write", "cli.run")]
         c, i, op = rng.choice(biased if biased and rng.random() < 0.7 else targets)
@@ -450,6 +452,7 @@ def gen_faults(rng, programs, n):
         kinds = ["open-fail", "read-fail", "cancel", "alloc-fail"]
         if op["op"] in ("calc.write", "cli.run", "io.write_energy"):
             kinds += ["write-torn", "write-torn", "write-torn"]
+        kinds = [k for k in kinds if k in enabled] or kinds
         kind = rng.choice(kinds)
         f = {"client": c, "op": i, "attempt": attempt, "kind": kind}
         if kind in ("open-fail", "read-fail"):
